@@ -717,6 +717,22 @@ class Interp:
             return v
         return self.global_name(e.id, env, e)
 
+    def module_const(self, rel: str, name: str):
+        key = (rel, name)
+        cache = self.__dict__.setdefault("_mc_cache", {})
+        if key in cache:
+            return cache[key]
+        ex = self.prog.modules[rel].consts[name]
+        try:
+            v = self.prog.fold(ex, rel)
+        except (ValueError, KeyError, IndexError, TypeError):
+            sub = Env()
+            sub.vars["__relpath__"] = rel
+            sub.vars["__cls__"] = None
+            v = self.eval(ex, sub)
+        cache[key] = v
+        return v
+
     def _eval_class_attr(self, ci, ex):
         sub = Env()
         sub.vars["__relpath__"] = ci.relpath
@@ -738,13 +754,7 @@ class Interp:
             if name in m.classes:
                 return ClassRef(name)
             if name in m.consts:
-                try:
-                    return self.prog.fold(m.consts[name], rel)
-                except ValueError:
-                    sub = Env()
-                    sub.vars["__relpath__"] = rel
-                    sub.vars["__cls__"] = None
-                    return self.eval(m.consts[name], sub)
+                return self.module_const(rel, name)
             if name in m.imports:
                 tgt = m.imports[name]
                 if tgt in self.ext:
@@ -766,7 +776,7 @@ class Interp:
                 if relm and nm in self.prog.modules[relm].funcs:
                     return self.prog.modules[relm].funcs[nm]
                 if relm and nm in self.prog.modules[relm].consts:
-                    return self.prog.fold(self.prog.modules[relm].consts[nm], relm)
+                    return self.module_const(relm, nm)
                 return Obj(None, __extmodule__=tgt)
         b = _BUILTINS.get(name)
         if b is not None:
@@ -838,11 +848,16 @@ class Interp:
                 if attr in m.funcs:
                     return m.funcs[attr]
                 if attr in m.consts:
-                    return self.prog.fold(m.consts[attr], rel)
+                    return self.module_const(rel, attr)
                 # sub-module (e.g. space_packet_parser.xtce -> comparisons)
                 sub = self.prog._mod_to_rel(f"{m.modname}.{attr}")
                 if sub:
                     return Obj(None, __module__=sub)
+                if attr in m.imports:
+                    e2 = Env()
+                    e2.vars["__relpath__"] = rel
+                    e2.vars["__cls__"] = None
+                    return self.global_name(attr, e2, node)
                 raise Unsupported(f"module attribute {rel}:{attr}")
             if "__extmodule__" in base.attrs:
                 key = base.attrs["__extmodule__"] + "." + attr
